@@ -331,3 +331,13 @@ def run_case(case):
             "distinct_written_offered_outcomes": set(seen),
         },
     )
+
+
+def sanity(summary, tier):
+    x = summary["extra"]
+    probs = []
+    if len(x.get("distinct_written_offered_outcomes", ())) < 8:
+        probs.append("schedules hardly differ: producers, reader and stop never raced")
+    if x.get("schedules_line_granularity", 0) < 1000 or x.get("schedules_sync_granularity", 0) < 1000:
+        probs.append("too few schedules")
+    return probs
